@@ -269,6 +269,55 @@ def layout_job(job):
                 v = fresh(f"m_{key}", sub[1], sub[0] == "s")
                 out.append(prove(job["id"] + f"-uconst-{key}", "union const", f"{text}: const({{{key!r}: v}})[{key!r}] == v", {"v": v}, [],
                                  lambda v, key=key: layout.const({key: v})[key], lambda i, res, exc: exc is None and res == i["v"], shims=sh))
+    # O3'' fields are assigned in the order given, on an all-zero value: a later initialiser (also a zero one) overrides the bits of
+    # an earlier overlapping one (flexible layouts with overlapping fields; array elements named twice through negative indices)
+    kids = [(key, off, sub) for key, off, sub in fields_of(spec) if sub[0] in ("u", "s") and sub[1] > 0]
+    if spec[0] in ("flex", "array", "struct") and kids:
+        rr = random.Random(hash(text) & 0xffff)
+        seq = [rr.choice(kids) for _ in range(min(3, len(kids) + 1))]
+        keys = []
+        for j, (key, off, sub) in enumerate(seq):
+            k_ = key
+            if spec[0] == "array" and rr.random() < 0.5:
+                k_ = key - spec[2]                   # the same element through a negative index
+            keys.append(k_)
+        if len(set(map(str, keys))) == len(keys):    # dict keys must be distinct objects
+            fv = {f"q{j}": fresh(f"q{j}", sub[1], sub[0] == "s") for j, (key, off, sub) in enumerate(seq)}
+
+            def run_seq(**kw):
+                return layout.const({k_: kw[f"q{j}"] for j, k_ in enumerate(keys)}).as_bits()
+
+            def post_seq(i, res, exc):
+                if exc is not None:
+                    return False
+                want = 0
+                for j, (key, off, sub) in enumerate(seq):
+                    m_ = refsem.mask(sub[1]) << off
+                    want = (want & ~m_) | ((refsem.to_unsigned(i[f"q{j}"], sub[1]) << off) & m_)
+                return res == want
+            out.append(prove(job["id"] + "-constseq", "const in order", f"{text}: layout.const({{{', '.join(map(repr, keys))}}}) == fields assigned in that order on zero",
+                             fv, [], run_seq, post_seq, shims=sh))
+    # O2' slices of a constant with an array layout follow Python's slice semantics (also descending strides)
+    if spec[0] == "array" and spec[2] >= 2 and size_of(spec[1]) > 0:
+        n_, ew_ = spec[2], size_of(spec[1])
+        sls = [slice(None, None, -2), slice(None, None, 2), slice(n_ - 1, None, -2), slice(1, None, 3), slice(None, None, -1), slice(-1, 0, -2), slice(0, n_, 1), slice(None, None, -3)]
+        raw2 = fresh("raw", size, False)
+
+        def run_sl(raw):
+            c = layout.from_bits(raw)
+            return [c[sl].as_bits() for sl in sls]
+
+        def post_sl(i, res, exc):
+            if exc is not None:
+                return False
+            ok = True
+            for sl, got in zip(sls, res):
+                want = 0
+                for pos, idx in enumerate(range(n_)[sl]):
+                    want |= ((i["raw"] >> (idx * ew_)) & refsem.mask(ew_)) << (pos * ew_)
+                ok = sym_and(ok, got == want)
+            return ok
+        out.append(prove(job["id"] + "-slices", "Const[slice]", f"{text}: from_bits(raw)[slice] for strides +-1, +-2, +-3", {"raw": raw2}, [], run_sl, post_sl, shims=sh))
     # O4 / O5 simulation: view fields read the slices; assigning through a view field changes only that field
     out.extend(sim_obligations(job, spec, L, layout, leaves, size))
     # in synthesis: the same design's RTLIL agrees with the simulator (C04's translation validation), so with the slices
